@@ -1004,7 +1004,7 @@ pub fn inference_shape_family(thorough: bool) -> Vec<Prog> {
     for t in crate::shapes::spelling_trees_exact(k) {
       for (ci, (cname, ctx)) in crate::shapes::SPELLING_CONTEXTS.iter().enumerate() {
         // the largest level in two contexts only (one closed, one generic)
-        if k == max && k >= 2 && ![0, 5].contains(&ci) {
+        if k == max && k >= 2 && ![0, 1, 5].contains(&ci) {
           continue;
         }
         let e = ctx.replace('@', &t);
@@ -1040,6 +1040,76 @@ pub fn term_family(thorough: bool) -> Vec<Prog> {
     }
   }
   out
+}
+
+/// Type twins: two (or three) distinct types with the same lowered layout used side by side, so
+/// that structural type deduplication merges them: twin structs, twin enums, twin single-field
+/// wrappers, twin generic instantiations, twin closure types - each pushed through the same
+/// operations (option wrapping + match, field access, Vec, generic identity, closures).
+pub fn type_twin_family() -> Vec<Prog> {
+  // (name, declarations, [(type, constructor expression, show of a value X)])
+  let groups: Vec<(&str, &str, Vec<(&str, &str, &str)>)> = vec![
+    ("structs", "class P(val a: int, val b: int) {}\nclass Q(val x: int, val y: int) {}\nclass R(val m: int, val n: int) {}\n",
+      vec![("P", "P.init(1, 2)", "Str.fromInt(X.a * 10 + X.b)"), ("Q", "Q.init(3, 4)", "Str.fromInt(X.x * 10 + X.y)"), ("R", "R.init(5, 6)", "Str.fromInt(X.m * 10 + X.n)")]),
+    ("enums", "class E1(A(int), B) {\n  method s(): Str = match this { A(v) -> \"A\" :: Str.fromInt(v), B -> \"B\" }\n}\nclass E2(C(int), D) {\n  method s(): Str = match this { C(v) -> \"C\" :: Str.fromInt(v), D -> \"D\" }\n}\n",
+      vec![("E1", "E1.A(1)", "X.s()"), ("E1", "E1.B()", "X.s()"), ("E2", "E2.C(2)", "X.s()"), ("E2", "E2.D()", "X.s()")]),
+    ("newtype-enums", "class N1(W1(int)) {\n  method s(): Str = match this { W1(v) -> \"W1:\" :: Str.fromInt(v) }\n}\nclass N2(W2(int)) {\n  method s(): Str = match this { W2(v) -> \"W2:\" :: Str.fromInt(v) }\n}\n",
+      vec![("N1", "N1.W1(1)", "X.s()"), ("N2", "N2.W2(2)", "X.s()")]),
+    ("wrappers-of-a-struct", "class P(val a: int, val b: int) {}\nclass H1(val p: P) {}\nclass H2(val q: P) {}\n",
+      vec![("H1", "H1.init(P.init(1, 2))", "Str.fromInt(X.p.a)"), ("H2", "H2.init(P.init(3, 4))", "Str.fromInt(X.q.b)")]),
+    ("generic-instantiations", "class G<T>(val v: T, val n: int) {}\nclass K(val v: int, val n: int) {}\n",
+      vec![("G<int>", "G.init(1, 2)", "Str.fromInt(X.v + X.n)"), ("K", "K.init(3, 4)", "Str.fromInt(X.v + X.n)"), ("G<bool>", "G.init(true, 5)", "Str.fromInt(X.n)")]),
+    ("struct-and-enum-payload", "class P(val a: int, val b: int) {}\nclass TT(Two(int, int), Zero) {\n  method s(): Str = match this { Two(a, b) -> Str.fromInt(a * 10 + b), Zero -> \"zero\" }\n}\n",
+      vec![("P", "P.init(1, 2)", "Str.fromInt(X.a * 10 + X.b)"), ("TT", "TT.Two(3, 4)", "X.s()"), ("TT", "TT.Zero()", "X.s()")]),
+  ];
+  let mut out = vec![];
+  for (gname, decls, members) in groups {
+    for order in [false, true] {
+      let mut ms = members.clone();
+      if order {
+        ms.reverse();
+      }
+      let mut main = String::new();
+      for (i, (ty, ctor, show)) in ms.iter().enumerate() {
+        let sh = |x: &str| show.replace('X', x);
+        main.push_str(&format!("    let v{i}: {ty} = {ctor};\n"));
+        main.push_str(&format!("    Process.println({});\n", sh(&format!("v{i}"))));
+        main.push_str(&format!("    Process.println(match Opt.Some(v{i}) {{ None -> \"none\", Some(w) -> {} }});\n", sh("w")));
+        main.push_str(&format!("    Process.println(match Main.pick(Opt.Some(v{i}), Opt.None(), {i}) {{ None -> \"none\", Some(w) -> {} }});\n", sh("w")));
+        main.push_str(&format!("    Process.println(if let Some(w) = Main.pick(Opt.None<{ty}>(), Opt.Some(v{i}), 1) {{ {} }} else {{ \"none\" }});\n", sh("w")));
+        main.push_str(&format!("    Process.println({});\n", sh(&format!("Main.id(v{i})"))));
+        main.push_str(&format!("    Process.println({});\n", sh(&format!("Vec.of(v{i}).get(0)"))));
+        main.push_str(&format!("    let f{i} = (u: {ty}) -> {};\n    Process.println(f{i}(v{i}));\n", sh("u")));
+      }
+      let text = format!(
+        "{decls}class Opt<T>(None, Some(T)) {{}}\nclass Main {{\n  function <T> id(t: T): T = t\n  function <T> pick(a: Opt<T>, b: Opt<T>, n: int): Opt<T> = if n == 0 {{ a }} else {{ b }}\n  function main(): unit = {{\n{main}  }}\n}}\n"
+      );
+      out.push(Prog { family: "type-twin", shape: format!("{gname}{}", if order { " reversed" } else { "" }), name: format!("type twins {gname}{}", if order { " reversed" } else { "" }), text });
+    }
+  }
+  out
+}
+
+/// A CLASS (not an interface) as the bound of a type parameter, with member access through the
+/// bounded parameter: the checker accepts these programs.
+pub fn class_bound_family() -> Vec<Prog> {
+  let uses: [(&str, &str); 4] = [
+    ("field-access", "t.v"),
+    ("method-call", "t.get()"),
+    ("struct-pattern", "{ let { v } = t; v }"),
+    ("passed-on-only", "Main.size(t)"),
+  ];
+  uses
+    .iter()
+    .map(|(name, body)| Prog {
+      family: "class-bound",
+      shape: format!("use={name}"),
+      name: format!("class as bound, {name}"),
+      text: format!(
+        "class Box<T>(val v: T) {{\n  method get(): T = this.v\n}}\nclass Main {{\n  function <T> size(t: T): int = 1\n  function <T: Box<int>> unbox(t: T): int = {body}\n  function main(): unit = {{\n    Process.println(Str.fromInt(Main.unbox(Box.init(3))));\n    Process.println(Str.fromInt(Main.unbox(Box.init(\"4\".toInt()))))\n  }}\n}}\n"
+      ),
+    })
+    .collect()
 }
 
 pub fn recursion_family(thorough: bool) -> Vec<Prog> {
@@ -1267,7 +1337,14 @@ pub fn vec_family(thorough: bool) -> Vec<Prog> {
 pub fn string_family() -> Vec<Prog> {
   let mut out = vec![];
   // content classes; each (label, source spelling inside quotes)
-  let contents: [(&str, &str); 12] = [
+  let contents: [(&str, &str); 18] = [
+    // every escape the lexer accepts, each on its own (the two back ends decode them separately)
+    ("escape-v", "v\\vt"),
+    ("escape-f", "f\\ff"),
+    ("escape-b", "b\\bs"),
+    ("escape-r", "c\\rr"),
+    ("escape-0", "n\\0l"),
+    ("escape-all", "\\t\\v\\0\\b\\f\\n\\r\\\"\\\\"),
     ("plain", "abc"),
     ("empty", ""),
     ("spaces", "  two  spaces  "),
@@ -1394,6 +1471,8 @@ pub fn all_families(thorough: bool) -> Vec<Prog> {
   v.extend(recursion_family(thorough));
   v.extend(self_call_position_family());
   v.extend(typed_tail_recursion_family());
+  v.extend(type_twin_family());
+  v.extend(class_bound_family());
   v.extend(inference_shape_family(thorough));
   v.extend(term_family(thorough));
   v.extend(constant_parameter_family());
